@@ -170,9 +170,9 @@ def run_histories(ctx, nh, flavour="plain", seed_salt=0):
     exes = C.build_harness_all_prec("h_drv.c", flavour, precs="dszc")
     rng = random.Random(ctx.seed * 8191 + 8 + seed_salt)
     hs = []
-    nfb = nh // 3
+    nfb = (2 * nh) // 3
     for i in range(nh + nfb):
-        h = gen_fallback_history(rng, "h%d" % i, prec=rng.choice("dszc")) if i >= nh else gen_history(rng, "h%d" % i, prec=rng.choice("ddsszc"))
+        h = gen_fallback_history(rng, "h%d" % i, prec="dszc"[i % 4]) if i >= nh else gen_history(rng, "h%d" % i, prec=rng.choice("ddsszc"))
         s, rhs = script_of(h, rng)
         h["script"] = s; h["rhs"] = rhs
         hs.append(h)
